@@ -80,8 +80,9 @@ def plan_c04(tier, seed):
         add("g6", 1, 1, 1)
         add("g9", 1, 1, 2)
         add("g14a", 1, 1, 1)
+        add("g6b", 1, 1, 1); add("g6b", 2, 1, 2)
     else:
-        for g in ("g2", "g3", "g4", "g5", "g5b", "g6", "g7", "g8", "g8b", "g9", "g12", "g14", "g14a"):
+        for g in ("g2", "g3", "g4", "g5", "g5b", "g6", "g6b", "g7", "g8", "g8b", "g9", "g12", "g14", "g14a"):
             for i in (0, 1, 2, 3):
                 for b in (1, 2):
                     for m in (1, 2, 3):
@@ -240,6 +241,12 @@ def plan_c08(tier, seed):
     def add(g, i, b, m, **kw):
         jobs.append(with_delay_fallback(wf("C08", g, i, b, m, oracles=o, tier=tier, events_dep=False, extra="recorder", **kw)))
     add("g2", 2, 1, 2); add("g2", 3, 1, 3); add("g3", 2, 1, 2); add("g5b", 1, 1, 2); add("g2", 2, 2, 2)
+    # histories x schedules: outputs of LATER items already on disk (their tasks are skipped and
+    # must still wait for their turn)
+    add("g2", 2, 1, 2, pre={"in1.txt.p": "p.out(in=in1.txt;)"}, id="C08-g2-i2-m2-pre1")
+    add("g2", 3, 1, 3, pre={"in1.txt.p": "p.out(in=in1.txt;)", "in2.txt.p": "p.out(in=in2.txt;)"}, id="C08-g2-i3-m3-pre12")
+    add("g2", 3, 1, 2, pre={"in1.txt.p": "p.out(in=in1.txt;)"}, id="C08-g2-i3-m2-pre1")
+    add("g3", 2, 1, 2, pre={"in1.txt.p.q": "q.out(in=p.out(in=in1.txt;);)"}, id="C08-g3-i2-m2-preq1")
     if tier != "quick":
         add("g2", 3, 2, 2); add("g3", 3, 1, 3); add("g3", 3, 1, 2); add("g5b", 2, 1, 2); add("g5b", 2, 1, 3); add("g12", 3, 1, 2); add("g12", 4, 2, 3); add("g7", 2, 1, 2)
     return {"level": "model_checking", "stages": [lambda ctx, prev: jobs],
@@ -330,9 +337,16 @@ def finish(prop, tier, seed, plan, results, known, classify, wall, build_s, writ
                 vio_new.append(v)
     for kid, (k, vs) in sorted(vio_known.items()):
         print(f"KNOWN-FINDING: property={k['property']} {k['what']} [{kid}; seen in {len(vs)} scenario(s), e.g. {vs[0]['signature'][:160]}]")
+    shown = {}
     for v in vio_new:
-        print(f"VIOLATION property={v['prop']} replay={v.get('replay') or 'n/a'}")
-        print(f"    {v['class']}: {v['detail'][:400]}   [{v['signature'][:200]}]")
+        k = (v["prop"], v["class"])
+        shown[k] = shown.get(k, 0) + 1
+        if shown[k] <= 4:
+            print(f"VIOLATION property={v['prop']} replay={v.get('replay') or 'n/a'}")
+            print(f"    {v['class']}: {v['detail'][:400]}   [{v['signature'][:200]}]")
+    for (pp, cls), n in shown.items():
+        if n > 4:
+            print(f"    ... {n - 4} more violations of class {cls} (property {pp}); all replay files are under /verif/replays/{pp}/")
     for e in errors:
         print(f"ENGINE-ERROR job={e['job']['id']}: {e['error'][:600]}")
     level = plan["level"]
@@ -365,3 +379,268 @@ def finish(prop, tier, seed, plan, results, known, classify, wall, build_s, writ
     if errors:
         return 2
     return 0
+
+
+# ------------------------------------------------------------------------------------ faults / crashes
+
+FAULT_KINDS = ["exit-before", "exit-mid", "exit-after", "killed", "missing"]
+
+
+def fault_targets(graph, items):
+    """(proc, match) pairs: every task of every command process of the graph"""
+    procs = {"g2": ["p"], "g3": ["p", "q"], "g4": ["p", "q", "r"], "g6": ["p", "q", "r", "j"], "g7": ["p", "q", "r"], "g8": ["p", "q"], "g5": ["p"]}[graph]
+    t = []
+    for p in procs:
+        for i in range(items):
+            t.append((p, f"in{i}.txt"))
+    return t
+
+
+@register("C09")
+def plan_c09(tier, seed):
+    o = ["nohang", "c09", "c01"]
+    jobs = []
+    def add(g, i, b, m, kind, proc, match, fk):
+        jobs.append(with_delay_fallback(wf("C09", g, i, b, m, kind, oracles=o, tier=tier, events_dep=False, fault={"proc": proc, "match": match, "kind": fk},
+                                           id=f"C09-{g}-i{i}-m{m}-{kind}-{proc}-{match}-{fk}")))
+    if tier == "quick":
+        for (p, mt) in fault_targets("g3", 2):
+            for fk in FAULT_KINDS:
+                add("g3", 2, 1, 2, "cmd", p, mt, fk)
+        for (p, mt) in fault_targets("g3", 1):
+            for fk in ("exit-mid", "missing"):
+                add("g3", 1, 1, 1, "func", p, mt, fk)
+        for (p, mt) in fault_targets("g7", 1):
+            for fk in ("exit-mid", "exit-after", "missing"):
+                add("g7", 1, 1, 2, "cmd", p, mt, fk)
+        for (p, mt) in fault_targets("g4", 1):
+            add("g4", 1, 1, 2, "cmd", p, mt, "exit-after")
+    else:
+        for g, i, m in (("g3", 2, 2), ("g3", 3, 2), ("g4", 1, 2), ("g4", 2, 2), ("g6", 1, 2), ("g7", 2, 2), ("g8", 2, 2), ("g5", 2, 2)):
+            for (p, mt) in fault_targets(g, i):
+                for fk in FAULT_KINDS:
+                    for kind in ("cmd", "func"):
+                        add(g, i, 1, m, kind, p, mt, fk)
+    # tasks that cannot be formed
+    for extra in ("emptyparam", "badpath", "missingtag"):
+        for kind in ("cmd", "func"):
+            jobs.append(wf("C09", "g8", 2, 1, 2, kind, oracles=["nohang", "c09-unformed"], tier=tier, events_dep=False, extra=extra, id=f"C09-g8-{extra}-{kind}"))
+    return {"level": "fault_enumeration", "stages": [lambda ctx, prev: jobs],
+            "rule": "every choice of failing task x failure kind {exit before / mid / after writing, killed, declared output missing} + tasks that cannot be formed {empty parameter value, invalid output path, missing tag}, each under every Mazurkiewicz trace of the concurrently running rest (DPOR closed, delay bound 2 otherwise); non-trivial = distinct (fault case, terminal outcome) pairs in which the fault changed the outcome",
+            "assumptions": BASE_ASSUMPTIONS + ["failures are injected at the exec seam (command result) or raised by the Go function through scipipe.Failf"]}
+
+
+def crash_explore_jobs(prop, tier, oracles, snap_root=None):
+    """stage 1 of C01/C03: crash-mode explorations. One task in flight: every FS mutation also
+    writes DISK (complete crash-state sets). Two in flight: path-dependent DPOR + delay bound."""
+    jobs = []
+    q = tier == "quick"
+    def add(g, i, m, kind, disk_dep=True, mode="dpor", extra="", depth2=True, **kw):
+        jid = f"{prop}-crash-{g}-i{i}-m{m}-{kind}" + (f"-{extra}" if extra else "") + ("" if disk_dep else "-pathdep") + (f"-d{kw.get('delay')}" if mode == "delay" else "")
+        j = wf(prop, g, i, 1, m, kind, mode=mode, oracles=oracles, tier=tier, events_dep=False, crash=True, disk_dep=disk_dep, id=jid, **({"extra": extra} if extra else {}), **kw)
+        if snap_root:
+            j["_snap"] = True
+            j["_depth2"] = depth2
+        jobs.append(j)
+    for kind in ("cmd", "func"):
+        add("g2", 1, 1, kind)
+        add("g2", 1, 1, kind, extra="subdir")
+    add("g2", 2, 1, "cmd", depth2=not q)
+    add("g7", 1, 1, "cmd", depth2=not q)
+    add("g3", 1, 1, "cmd")
+    add("g8", 1, 1, "cmd")
+    add("g14a", 1, 1, "func")
+    # two tasks in flight
+    add("g2", 2, 2, "cmd", disk_dep=False, mode="delay", delay=2 if not q else 1, depth2=not q)
+    if not q or prop == "C01":
+        add("g2", 2, 2, "cmd", disk_dep=False, depth2=False)
+        add("g4", 1, 2, "cmd", disk_dep=False, mode="delay", delay=2 if not q else 1, depth2=False)
+        add("g2", 2, 1, "func", depth2=False); add("g7", 1, 1, "func", depth2=False)
+    if not q:
+        add("g3", 2, 1, "cmd", depth2=False); add("g3", 2, 1, "func", depth2=False); add("g7", 2, 1, "cmd", depth2=False); add("g4", 1, 1, "cmd", depth2=False); add("g6", 1, 1, "cmd", depth2=False)
+        add("g4", 1, 2, "cmd", disk_dep=False, depth2=False); add("g7", 1, 2, "cmd", disk_dep=False, depth2=False); add("g3", 2, 2, "cmd", disk_dep=False, mode="delay", delay=2, depth2=False)
+        add("g14", 1, 1, "func", depth2=False)
+    return jobs
+
+
+@register("C01")
+def plan_c01(tier, seed):
+    o = ["nohang", "c01"]
+    def stage1(ctx, prev):
+        jobs = crash_explore_jobs("C01", tier, o + ["clean"])
+        # faults: every task x every failure kind, crash points observed as well
+        combos = [("g2", 1, 1), ("g3", 1, 1), ("g7", 1, 1)] if tier == "quick" else [("g2", 2, 1), ("g3", 2, 1), ("g7", 1, 1), ("g7", 2, 2), ("g4", 1, 2), ("g8", 1, 1)]
+        for g, i, m in combos:
+            for (p, mt) in fault_targets(g, i):
+                for fk in FAULT_KINDS:
+                    for kind in (("cmd",) if tier == "quick" else ("cmd", "func")):
+                        jobs.append(with_delay_fallback(wf("C01", g, i, 1, m, kind, oracles=o, tier=tier, events_dep=False, crash=True, disk_dep=(m == 1),
+                                                           fault={"proc": p, "match": mt, "kind": fk}, id=f"C01-fault-{g}-i{i}-m{m}-{kind}-{p}-{mt}-{fk}")))
+        jobs.append(wf("C01", "g2", 1, 1, 1, "func", oracles=o + ["clean"], tier=tier, events_dep=False, crash=True, disk_dep=True, extra="writeidiom", id="C01-gofunc-write-idiom"))
+        return jobs
+    return {"level": "fault_enumeration", "stages": [stage1],
+            "rule": "crash points: the disk after EVERY file-system mutation (partial writes, each rename, each step of temp-dir removal) of every explored schedule (one task in flight: FS mutations globally dependent, closed; two in flight: path-dependent DPOR + delay bound) x fault kinds {exit before/mid/after writing, killed, output missing} per task; state predicate on every such disk: a declared output that exists holds the complete reference bytes and its task ended successfully, every other new data file is below a _scipipe_tmp* directory; distinct_nontrivial = distinct crash states + distinct (fault, outcome) pairs",
+            "assumptions": BASE_ASSUMPTIONS + ["kill = process-group kill: completed syscalls persist (no power-loss model)", "the .audit.json side-car and parent directories created at the final location are not 'output files' in the statement's sense"],
+            "distinct_nontrivial_fn": lambda rs: sum((r.get("distinct_crash_states") or 0) + (r.get("distinct_outcomes") or 0) for r in rs)}
+
+
+def short_after(after):
+    f = after.split()
+    if not f:
+        return "?"
+    return f[0] + ("->" + os.path.basename(f[-1]) if len(f) > 1 else "")
+
+
+def recovery_stage(prop, tier, depth_tag, oracles, crash=False):
+    """for every distinct crash state collected by the previous stage: R1 (re-run as is) and
+    R2 (remove _scipipe_tmp* and *.fifo, re-run)"""
+    def stage(ctx, prev):
+        jobs = []
+        for r in prev:
+            j = r["job"]
+            if not j.get("_snap") or j.get("_consumed") or not r.get("crash"):
+                continue
+            j["_consumed"] = True
+            origin = (j.get("args") or {}).get("origin") or (r.get("scenario") or j["id"])
+            seen = ctx.setdefault("seen_digests", set())
+            for cs in r["crash"]:
+                # recovery is a function of the disk state alone: one recovery per distinct digest
+                dk = (origin, cs["digest"])
+                if dk in seen:
+                    ctx["dedup_skipped"] = ctx.get("dedup_skipped", 0) + 1
+                    continue
+                seen.add(dk)
+                seed_dir = os.path.join(j["snap_dir"], str(cs["id"]))
+                for clean in (False, True):
+                    nj = copy.deepcopy(j)
+                    for k in ("base", "_snap", "_consumed", "_fallback_delay", "snap_dir", "fault"):
+                        nj.pop(k, None)
+                    nj["id"] = f"{j['id']}-{depth_tag}{cs['id']}-{'R2' if clean else 'R1'}"
+                    nj["seed_dir"] = seed_dir
+                    nj["clean"] = clean
+                    d2 = bool(crash and clean and j.get("_depth2"))
+                    nj.pop("_depth2", None)
+                    if j["scen"]["max"] > 1 and tier == "quick":
+                        nj["mode"] = "delay"   # recovery of two-in-flight scenarios: delay bound 1 in the quick tier
+                        nj["delay"] = 1
+                    else:
+                        nj["mode"] = "dpor"
+                        nj["_fallback_delay"] = 1
+                    nj["crash"] = d2
+                    nj["disk_dep"] = bool(d2 and j["scen"]["max"] == 1)
+                    nj["oracles"] = oracles
+                    nj["budget"] = budget(tier, 30, 120)
+                    nj["args"] = {"origin": origin, "crash_after": ((j.get("args") or {}).get("crash_after", "") + " then " if j.get("args") else "") + short_after(cs["after"])}
+                    if d2:
+                        nj["_snap"] = True
+                        nj["snap_dir"] = os.path.join(ctx["scratch"], "snaps", nj["id"])
+                    jobs.append(nj)
+        return jobs
+    return stage
+
+
+@register("C03")
+def plan_c03(tier, seed):
+    def stage1(ctx, prev):
+        jobs = crash_explore_jobs("C03", tier, ["nohang", "clean"], snap_root=True)
+        for j in jobs:
+            j["snap_dir"] = os.path.join(ctx["scratch"], "snaps", j["id"])
+        return jobs
+    o2 = ["nohang", "c03", "c01"]
+    stages = [stage1, recovery_stage("C03", tier, "s", o2, crash=True), recovery_stage("C03", tier, "t", o2, crash=False)]
+    return {"level": "fault_enumeration", "stages": stages,
+            "rule": "every DISTINCT disk state after every FS mutation of every explored schedule (crash points) of the crash scenarios; from each: R1 re-run as is (must refuse with exit != 0 when a temp dir / FIFO is left, else converge) and R2 remove leftovers + re-run (must complete with exactly the reference files and contents, no re-execution and no modification of tasks finalized before the crash, nothing left); R2 runs are themselves explored with crash points and recovered from once more (crash during recovery, depth 2); every recovery run explored over all its schedules (DPOR closed)",
+            "assumptions": BASE_ASSUMPTIONS + ["after a kill only the disk survives, so recovery is a function of the disk digest (paths, types, content hashes; audit files classified empty/partial/complete)", "kill = process kill, no power loss"],
+            "distinct_nontrivial_fn": lambda rs: sum((r.get("distinct_crash_states") or 0) for r in rs)}
+
+
+def powerset(xs):
+    for n in range(len(xs) + 1):
+        for c in itertools.combinations(xs, n):
+            yield list(c)
+
+
+@register("C02")
+def plan_c02(tier, seed):
+    o = ["nohang", "clean", "c02", "c04"]
+    def stage1(ctx, prev):
+        jobs = []
+        combos = [("g2", 2, 2, "cmd"), ("g3", 1, 1, "cmd"), ("g3", 2, 1, "func"), ("g7", 1, 2, "cmd"), ("g8", 1, 1, "cmd"), ("g6b", 2, 2, "func")]
+        if tier != "quick":
+            combos += [("g3", 2, 2, "cmd"), ("g6", 1, 2, "cmd"), ("g7", 2, 2, "func"), ("g4", 1, 2, "cmd"), ("g8", 2, 2, "func")]
+        for g, i, m, kind in combos:
+            jobs.append(wf("C02", g, i, 1, m, kind, mode="single", oracles=["clean"], tier=tier, events_dep=False, id=f"C02-list-{g}-i{i}-m{m}-{kind}", _list=True, args={"list_outputs": "1"}))
+        return jobs
+    def stage2(ctx, prev):
+        jobs = []
+        for r in prev:
+            j = r["job"]
+            if not j.get("_list"):
+                continue
+            units = (r.get("extra_info") or {}).get("task_outputs") or []
+            for idx, sub in enumerate(powerset(list(range(len(units))))):
+                if not sub:
+                    continue
+                if tier == "quick" and len(units) > 3 and len(sub) not in (1, len(units)) and idx % 2:
+                    continue
+                for content in ("ref", "user"):
+                    for audit in (True, False):
+                        if tier == "quick" and content == "user" and not audit:
+                            continue
+                        pre = {}
+                        for u in sub:
+                            for path, c in units[u].items():
+                                pre[path] = c if content == "ref" else "user-content-of-" + path
+                        nj = copy.deepcopy(j)
+                        for k in ("base", "_list", "args"):
+                            nj.pop(k, None)
+                        nj["id"] = j["id"].replace("-list-", "-pre-") + f"-s{''.join(map(str, sub))}-{content}-{'a' if audit else 'n'}"
+                        nj["pre"] = pre
+                        nj["pre_audit"] = audit
+                        nj["mode"] = "dpor"
+                        nj["oracles"] = o
+                        nj["_fallback_delay"] = 2
+                        jobs.append(nj)
+            # history: complete run, run again in place
+            nj = copy.deepcopy(j)
+            for k in ("base", "_list", "args"):
+                nj.pop(k, None)
+            nj["id"] = j["id"].replace("-list-", "-full-")
+            nj["save_final"] = os.path.join(ctx["scratch"], "final", nj["id"])
+            nj["_rerun"] = True
+            jobs.append(nj)
+        return jobs
+    def stage3(ctx, prev):
+        jobs = []
+        for r in prev:
+            j = r["job"]
+            if not j.get("_rerun") or j.get("_consumed"):
+                continue
+            j["_consumed"] = True
+            nj = copy.deepcopy(j)
+            for k in ("base", "_rerun", "_consumed", "save_final"):
+                nj.pop(k, None)
+            nj["id"] = j["id"].replace("-full-", "-rerun-")
+            nj["seed_dir"] = j["save_final"]
+            nj["mode"] = "dpor"
+            nj["oracles"] = ["nohang", "clean", "c02", "c02-norun"]
+            nj["_fallback_delay"] = 2
+            jobs.append(nj)
+        return jobs
+    return {"level": "fault_enumeration", "stages": [stage1, stage2, stage3],
+            "rule": "histories: every non-empty subset of the workflow's tasks has its outputs pre-placed on disk (reference bytes / arbitrary user bytes, with / without .audit.json) x every Mazurkiewicz trace of the run; plus 'complete run, run again in place'; oracle: no start event for a task with a pre-existing output, (inode, mtime_ns, size, bytes) of every pre-existing file identical before/after, no mutating FS call ever targets it (online monitor in the FS seam), downstream content = reference function of the pre-existing bytes; non-trivial = distinct (history, terminal outcome) pairs",
+            "assumptions": BASE_ASSUMPTIONS + ["multi-output tasks have all or none of their outputs pre-existing (the partial case is C03's concern)"],
+            "distinct_nontrivial_fn": lambda rs: sum((r.get("distinct_outcomes") or 0) for r in rs if r["job"].get("pre") or r["job"].get("seed_dir"))}
+
+
+# ------------------------------------------------------------------------------------ plan plug-ins
+import glob, importlib.util
+
+def _load_plugins():
+    for f in sorted(glob.glob(os.path.join(V, "plans", "*.py"))):
+        spec = importlib.util.spec_from_file_location("plan_" + os.path.basename(f)[:-3], f)
+        m = importlib.util.module_from_spec(spec)
+        spec.loader.exec_module(m)
+        m.setup(sys.modules[__name__])
+
+_load_plugins()
